@@ -35,6 +35,7 @@ func runC26(c *Ctx) {
 	c.rule(P, "toosmall-edge", "a NFS3ERR_TOOSMALL reply is reachable from the does-not-fit edge of the loop's stop test", 2)
 	c.rule(P, "entry-size","the stop test's estimate (Len + K + pad4(name)) covers the bytes the loop appends per entry plus the list trailer, minus the status word; sizes from the reply trace", 2)
 	c.rule(P, "cookie", "entry cookie = index+1; resume skips indices < cookie; eof = !stopped-for-size", 6)
+	runC26OrderPreserved(c)
 	ent, err := p.entrySet()
 	if err != nil {
 		c.undecided(P, "fit", "entries", "", err.Error())
